@@ -29,9 +29,11 @@ struct Hist {
   double dec_dev[10];  // max unit deviation per decile of the run
   long planned_len;
   Fnv hist;            // hash of the executed history (distinctness measure)
+  bool vec_precise[4]; // per group: the shared container holds a cluster whose members are resolvable in the scalar type
   Hist(const RunOpts& o_, Result& r_) : o(o_), res(r_), c03(o_.check == "C03"), record(o_.record != nullptr),
                                         rng(o_.seed), nsteps(0), idx(0), planned_len(1) {
     for (int i = 0; i < 10; ++i) dec_dev[i] = 0;
+    for (int i = 0; i < 4; ++i) vec_precise[i] = true;
   }
 
   double lim(const GroupVT* vt) const { return vt->is_float ? 1e4 : 1e6; }
@@ -354,6 +356,8 @@ struct Hist {
     const OpRec& op = s.op;
     const OpInfo& inf = op_info(op.op);
     if (op.fault != F_REJECT && !operands_ok(gc, op)) { res.add("n.skipped_magnitude", 1); return true; }
+    if (op.fault != F_REJECT && (op.op == OP_AVG_BIINV || op.op == OP_AVG || op.op == OP_AVG_FL || op.op == OP_AVG_FR) &&
+        !vec_precise[s.group & 3]) { res.add("n.skipped_average_precision", 1); return true; }
     compose_probe(gc, op);
     const uint64_t draws0 = vs_rand_draws();
     if (op.fault == F_RANDX) vs_rand_extreme_at(draws0 + (op.fparam >> 1), op.fparam & 1);
@@ -450,6 +454,17 @@ struct Hist {
         int sl[16]; int n = 0;
         for (double v : s.vals) if (n < 16 && elem_ok(gc, (int)v)) sl[n++] = (int)v;
         if (n == 0 && s.slot == 0) { sl[n++] = 0; }
+        if (s.slot == 0) {
+          // Averaging iterates m <- m (+) mean(X_i (-) m); the differences X_i (-) m are only meaningful when the rounding
+          // noise of the group operations, eps_mach * (1+L) (squared for SGal3, which multiplies velocity by time), is far
+          // below the cluster radius.  A float SGal3 cluster at coordinates ~5000 has noise ~3 on a radius of 0.3: the
+          // iteration is then fed garbage and may diverge to NaN, which is honest loss of precision, not an invalid result
+          // of a valid use.  Such containers are not averaged.
+          double c[32]; vt->get_elem(gc.st, sl[0], 0, c);
+          const double L = check_validity(vt, c).max_lin;
+          const double noise = eps_mach(vt) * ((vt->caps & CAP_CROSS) ? (1 + L) * (1 + L) : (1 + L));
+          vec_precise[s.group & 3] = noise < 1e-4;
+        }
         vt->set_vec(gc.st, sl, n, s.slot == 1); return true;   // slot == 1: append
       }
       case ST_NEG: {
@@ -834,7 +849,9 @@ struct Hist {
     if (!ctx.init(plan, err)) { res.status = "harness_error"; res.detail = err; return; }
     int kind = rng.below(100);
     const long walk_len = o.thorough ? 20000 : 2000;
-    const long reps = c03 ? (o.thorough ? 1000000 : 20000) : (o.thorough ? 10000000 : 100000);
+    // repetitions: 1e5 (quick), 1e6 and for a tenth of the repetition runs 1e7 (thorough); C03 evaluates three extra
+    // operations per step and repeats less
+    const long reps = c03 ? (o.thorough ? 1000000 : 20000) : (o.thorough ? (rng.chance(0.1) ? 10000000 : 1000000) : 100000);
     bool ok = true;
     for (int g = 0; g < ngr && ok; ++g) ok = init_pool(g);
     if (ok) {
